@@ -1,4 +1,5 @@
 // C11: averaging PrepareEvolve, LowPassFilter, AvgRampFilter, interval-averaged PrepareEvolve.
+#define VF_EARLY
 #include "bind.hpp"
 using namespace vf;
 
@@ -169,6 +170,7 @@ int main(int argc, char** argv) {
     if ((caseno++ % ar.nshards) == ar.shard) spectrum_cases(d, e1, pairs, ar, T);
     if ((caseno++ % ar.nshards) == ar.shard) spectrum_cases(d, e2, pairs, ar, T);
   }
+  check_early({11});
   finish();
   return 0;
 }
